@@ -4,7 +4,7 @@ from __future__ import annotations
 from hypothesis import strategies as st
 
 from hgv.runner import Result, Viol
-from hgv.worker import HarnessError
+from hgv.worker import HarnessError, Rejected
 
 ID = "C16"
 MAX_SHARDS = 4
@@ -74,7 +74,7 @@ def check(case, ctx) -> Result:
         res.violations.append(Viol("engine_crash_or_hang", f"real-time run died or hung: signal={resp.get('signal')} hang={resp.get('hang')} {resp.get('stderr', '')[-300:]}", dict(feats, hang=bool(resp.get("hang")))))
         return res
     if not resp.get("built"):
-        raise HarnessError(f"C16 program rejected: {resp.get('error')}")
+        raise Rejected(f"C16 program rejected: {resp.get('error')}")
     if resp.get("error"):
         res.violations.append(Viol("run_failed", f"run() threw: {resp['error']}", feats))
         return res
